@@ -306,6 +306,28 @@ Proof. unfold in_i16. intros [->|H]; [vm_compute; split; discriminate|]. revert 
 Lemma move_none_is_a1a1 : CreateMove 0 0 0 3 = 0.
 Proof. vm_compute. reflexivity. Qed.
 
+(** Summary of the encoding half of C17 *)
+Theorem C17_encoding :
+  (forall f t ty pr v, f < 64 -> t < 64 -> ty < 4 -> pr <= 6 -> in_i16 v ->
+     let m := CreateMoveValue f t ty pr v in
+     From m = f /\ To m = t /\ MoveType m = ty /\ PromotionType m = clamp_prom pr /\
+     ValueOf m = v /\ MoveOf m = CreateMove f t ty pr) /\
+  (forall f t ty pr, f < 64 -> t < 64 -> ty < 4 -> pr <= 6 ->
+     let m := CreateMove f t ty pr in
+     From m = f /\ To m = t /\ MoveType m = ty /\ PromotionType m = clamp_prom pr /\
+     ValueOf m = c_value_na /\ MoveOf m = m) /\
+  (forall m v, MoveOf (SetValue m v) = MoveOf m) /\
+  (forall m v, m <> 0 -> in_i16 v -> ValueOf (SetValue m v) = v) /\
+  (forall v, SetValue 0 v = 0).
+Proof.
+  repeat split; intros.
+  all: try (apply encode_fields; assumption).
+  all: try (apply encode_fields_novalue; assumption).
+  - apply set_value_move_part.
+  - apply set_value_value; assumption.
+Qed.
+
+Print Assumptions C17_encoding.
 Print Assumptions encode_fields.
 Print Assumptions encode_fields_novalue.
 Print Assumptions code_is_MoveOf.
